@@ -30,8 +30,8 @@ Definition hash_str (s : str) : N :=
   fold_left (fun h c => N.land (N.shiftl h 5 + h + c + 1) mask64) s 1469598103934665603.
 
 Inductive case :=
-| CFile (t : cls) (c : root) (accepted : bool) (static dynamic apps cursor : list N)
-| CDash (t : cls) (srcs : list str) (g : integ) (accepted : bool) (static dynamic apps : list N)
+| CFile (t : cls) (c : root) (accepted : bool) (static dynamic apps cursor : list N) (deps : list (list str))
+| CDash (t : cls) (srcs : list str) (g : integ) (accepted : bool) (static dynamic apps : list N) (deps : list (list str))
 | CSrc (t : cls) (name : str) (g : integ) (accepted : bool) (static dynamic apps store : list N) (quiet : bool)
 | CSafe (t : cls) (s : str) (ok : bool)
 | CClass (t : cls).
@@ -59,12 +59,14 @@ Definition check_texts (model static dynamic : list N) : bool :=
 Definition check (c : case) : bool :=
   gen_ok &&
   match c with
-  | CFile t c acc st dy apps cur =>
+  | CFile t c acc st dy apps cur deps =>
       match validate_fix (mk_uni t) G c with
-      | None => negb acc && is_nil st && is_nil dy && is_nil apps && is_nil cur
+      | None => negb acc && is_nil st && is_nil dy && is_nil apps && is_nil cur && is_nil deps
       | Some c' =>
           let model := all_sql_file reserved ver c' in
           acc && check_texts (conn_texts model) st dy
+          (* Integration.Dependencies of every integration after ValidateFix, in order *)
+          && list_eqb (list_eqb str_eqb) (map ig_deps (integs c')) deps
           (* on the wire of the pool: NewTask's statement for every task when the load
              succeeds (else for some of the references that resolve: map order), and
              only constant cursor statements *)
@@ -73,11 +75,13 @@ Definition check (c : case) : bool :=
               else forallb (fun a => existsb (N.eqb a) (pool_texts model)) apps)
           && forallb (fun x => existsb (N.eqb x) (map hash_str cursor_texts)) cur
       end
-  | CDash t srcs g acc st dy apps =>
+  | CDash t srcs g acc st dy apps deps =>
       if check_user_input (mk_uni t) (g_checked G) (root_of g)
       then acc && check_texts (conn_texts (all_sql_dash ver srcs g)) st dy
            && list_eqb N.eqb (sortN (pool_texts (all_sql_dash ver srcs g))) (sortN apps)
-      else negb acc && is_nil st && is_nil dy && is_nil apps
+           (* the stored integration is loaded with the Dependencies it was submitted with *)
+           && list_eqb (list_eqb str_eqb) [ig_deps g] deps
+      else negb acc && is_nil st && is_nil dy && is_nil apps && is_nil deps
   (* web.SaveSource with [name], an integration that refers to it is already stored:
      stored iff save_source_ok; when rejected NOTHING reaches the database (quiet);
      when stored the tasks of the integration run on the new source; everything the
